@@ -16,6 +16,7 @@ Bridged (floats): the matrix of the returned circuit (harness/bridge.py, not Pen
 import itertools
 import json
 import random
+import time
 
 import numpy as np
 
@@ -136,10 +137,8 @@ def record_ops(ops, wpos):
     recs, items = [], []
     for op in ops:
         name = op.name
-        if name == "SelectPauliRot":
-            cw, tw = list(op.hyperparameters["control_wires"]) if "control_wires" in op.hyperparameters else list(op.wires[:-1]), None
-            tw = list(op.hyperparameters["target_wire"]) if "target_wire" in op.hyperparameters else [op.wires[-1]]
-            w = [wpos.get(x, 0) for x in cw + tw]
+        if name == "SelectPauliRot":            # wires = control wires followed by the target wire
+            w = [wpos.get(x, 0) for x in op.wires]
             axis = op.hyperparameters["rot_axis"]
             recs.append({"g": name, "w": w, "x": [AXIS[axis]]})
             ang = [_f(a) for a in np.asarray(op.data[0]).reshape(-1)]
@@ -238,10 +237,14 @@ def tag(tr):
 def run(tier, seed):
     words = gen_words(tier, seed)
     known = known_class_words()
+    t0 = time.time()
+    timing = {}
     cases = [{"n": n, "a": w, "bs": [{"b": [], "rel": "emit"}]} for (n, w, _) in words] + \
             [{"n": 2, "a": w, "bs": [{"b": [], "rel": "emit"}]} for (w, _) in known]
     _, emitted, st = rel.validate(PID, cases, M, name="emit")
     states, transitions = st["distinct"], st["generated"]
+    timing["tlc_emit_s"] = round(time.time() - t0, 1)
+    t0 = time.time()
     # distinct exact unitaries (first word wins)
     seen, inputs = {}, []
     for i, (n, w, fam) in enumerate(words):
@@ -258,7 +261,7 @@ def run(tier, seed):
         wpos = {l: i + 1 for i, l in enumerate(labels)}
         for (kind, conv, gp, thunk, relation) in calls_for(n, U, labels, idx, tier):
             n_calls += 1
-            tr = {"kind": kind, "n": n, "tw": list(range(1, n + 1)), "u": ring, "conv": conv if kind in ("one", "rule") and n == 1 else "",
+            tr = {"kind": kind, "n": n, "tw": list(range(1, n + 1)), "inp": idx, "conv": conv if kind in ("one", "rule") and n == 1 else "",
                   "gp": gp, "err": "", "out": [], "exp": -1}
             items = []
             try:
@@ -274,6 +277,11 @@ def run(tier, seed):
             meta.append({"word": w, "family": fam, "labels": labels, "relation": relation, "items": items, "ops": [repr(o)[:160] for o in ops][:40],
                          "U": U, "rule": conv if kind == "rule" else ""})
     n_real = len(traces)
+    for (n, w, fam, ring) in inputs:                  # one input trace per distinct unitary: TLC answers with what it is
+        traces.append({"kind": "input", "n": n, "tw": list(range(1, n + 1)), "u": ring, "conv": "", "gp": 0, "err": "", "out": [], "exp": -1})
+    n_in = len(inputs)
+    timing["pennylane_calls_s"] = round(time.time() - t0, 1)
+    t0 = time.time()
     # classifier controls
     for j, (w, c) in enumerate(known):
         traces.append({"kind": "class", "n": 2, "tw": [1, 2], "u": emitted[len(words) + j], "conv": "", "gp": 0, "err": "", "out": [], "exp": c})
@@ -305,17 +313,18 @@ def run(tier, seed):
     neg.append(({"kind": "class", "n": 2, "tw": [1, 2], "u": emitted[len(words) + 13], "conv": "", "gp": 0, "err": "", "out": [], "exp": 2}, "SELF"))
     for t, _ in neg:
         traces.append(t)
-    verdicts, r = run_traces([{k: v for k, v in t.items() if k != "msg"} for t in traces], "traces")
+    verdicts, r = run_traces([{k: v for k, v in t.items() if k not in ("msg", "inp")} for t in traces], "traces")
     states += r.distinct
     transitions += r.generated
+    timing["tlc_trace_s"] = round(time.time() - t0, 1)
     # ---- controls
     for j in range(len(known)):
-        v = verdicts[n_real + j]
+        v = verdicts[n_real + n_in + j]
         if v[4] != "ok":
             raise lib.MachineryError(f"classifier control {word_str(known[j][0])}: {v}")
     nneg = 0
     for j, (_, expect) in enumerate(neg):
-        v = verdicts[n_real + len(known) + j]
+        v = verdicts[n_real + n_in + len(known) + j]
         got = v[4] if expect == "SELF" else v[0]
         if expect == "SELF":
             ok = got == "classifier-disagrees-with-known-class"
@@ -331,6 +340,9 @@ def run(tier, seed):
     FL = {1: "identity", 2: "scalar", 4: "diagonal", 8: "monomial", 16: "antidiagonal(1q)", 32: "x-diagonal(1q)", 64: "x-antidiagonal(1q)",
           128: "local-product(2q)"}
     seen_in = set()
+    for j in range(n_in):
+        if verdicts[n_real + j][4] != "ok":
+            raise lib.MachineryError(f"spec self-check failed on {word_str(inputs[j][1])}: {verdicts[n_real + j][4]}")
     drift_above, drift_detail = 0, []
     n_exact = n_phase = 0
     neg_num, neg_num_rej = 0, 0
@@ -338,10 +350,9 @@ def run(tier, seed):
     nontrivial = set()
     for i in range(n_real):
         tr, md = traces[i], meta[i]
-        verdict, flags, cls, ncnot, selfok = verdicts[i]
-        if selfok != "ok":
-            raise lib.MachineryError(f"spec self-check failed on {word_str(md['word'])}: {selfok}")
-        ukey = id(tr["u"])
+        verdict, _, _, ncnot, _ = verdicts[i]
+        _, flags, cls, _, _ = verdicts[n_real + tr["inp"]]
+        ukey = tr["inp"]
         if ukey not in seen_in:
             seen_in.add(ukey)
             if tr["n"] == 2:
@@ -396,8 +407,7 @@ def run(tier, seed):
                 Ubad = evaluate(its, tr["n"])
                 bad_ok = np.allclose(Ubad, md["U"], atol=TOL, rtol=0) if md["relation"] == "exact" else bridge.equal_up_to_phase(Ubad, md["U"], tol=TOL)
                 neg_num_rej += 0 if bad_ok else 1
-        if len(samples) < 5 and tr["kind"] in ("one", "two", "multi", "u2r") and len(md["word"]) >= 3 and len(samples) == len({s["call"] for s in samples}) \
-                and tag(tr) not in {s["call"] for s in samples}:
+        if len(samples) < 5 and len(md["word"]) >= 3 and tag(tr) not in {s["call"] for s in samples}:
             samples.append({"call": tag(tr), "word": word_str(md["word"]), "wires": md["labels"], "returned": md["ops"][:12], "flags": flags,
                             "minimal_cnots": cls, "cnots_used": ncnot, "relation": md["relation"], "verdict": "ok"})
     if neg_num == 0 or neg_num_rej != neg_num:
@@ -415,7 +425,7 @@ def run(tier, seed):
            "cnots_used_by_minimal_class": {str(k): {str(a): b for a, b in sorted(v.items())} for k, v in sorted(used_by_class.items())},
            "input_shapes(TLC)": dict(sorted(flag_hist.items())), "model_drift": drift_above, "model_drift_examples": drift_detail,
            "classifier_controls_ok": len(known), "negative_controls_rejected": nneg + neg_num_rej,
-           "structural_negative_controls": nneg, "numeric_negative_controls": neg_num_rej, "tolerance": TOL, "ring_level_M": M,
+           "structural_negative_controls": nneg, "numeric_negative_controls": neg_num_rej, "tolerance": TOL, "ring_level_M": M, "timing": timing,
            "exhaustive_part": "all words over {H,S,T} up to length %d on one wire; all words up to length 2 over the 2-wire alphabet" % (6 if tier == "quick" else 9)}
     return CheckResult(coverage=cov, violations=viol, assumptions=[
         "partial: inputs are the (dense) Clifford+T(+controlled) subgroup, exact in D[omega]; Haar-random, near-singular and near-class-boundary "
